@@ -239,3 +239,18 @@ V("radius memoised on the instance by hand", "C06", CURVE, "        c = self.arr
 V("translation reads the raw offset", "C03", TRANS, "    return affine_transform(offset=offset.normalized_array[:-1])", "    return affine_transform(offset=offset.array[:-1])", "E5.object", "affine_transform")
 V("from_tangent combines raw meet results", "C03", CURVE, "        a1, a2 = Line(a, c).meet(tangent).normalized_array, Line(b, d).meet(tangent).normalized_array\n        b1, b2 = Line(a, b).meet(tangent).normalized_array, Line(c, d).meet(tangent).normalized_array",
   "        a1, a2 = Line(a, c).meet(tangent).array, Line(b, d).meet(tangent).array\n        b1, b2 = Line(a, b).meet(tangent).array, Line(c, d).meet(tangent).array", "E5.object", "Conic.from_tangent")
+
+# ------------------------------------------------------------------------------------------------ rules added after seeding
+V("transpose: index sets through the inverse permutation", "C19", BASE,
+  "        result = Tensor(self.array.transpose(perm), copy=False)\n        result._covariant_indices = set(covariant_indices)\n        result._contravariant_indices = set(contravariant_indices)",
+  "        result = Tensor(self.array.transpose(perm), copy=False)\n        result._covariant_indices = {perm[i] for i in self._covariant_indices}\n        result._contravariant_indices = {perm[i] for i in self._contravariant_indices}",
+  "E4.V4", "Tensor.transpose")
+V("transpose loop: test and target swapped", "C19", BASE, "            if j in self._covariant_indices:\n                covariant_indices.append(i)", "            if i in self._covariant_indices:\n                covariant_indices.append(j)", "E4.V4", "Tensor.transpose")
+V("twin: transpose index sets as comprehensions", "C19", BASE,
+  "        result._covariant_indices = set(covariant_indices)\n        result._contravariant_indices = set(contravariant_indices)",
+  "        result._covariant_indices = {i for i, j in enumerate(perm) if j in self._covariant_indices}\n        result._contravariant_indices = {i for i, j in enumerate(perm) if j in self._contravariant_indices}", "silent")
+V("Kronecker cache filled under a swapped key", "C05", BASE, "            array = np.fromfunction(f, tuple(2 * p * [n]), dtype=int)\n", "            array = np.fromfunction(f, tuple(2 * p * [n]), dtype=int)\n            self._cache[(n, p)] = array\n", "E1.cache", "KroneckerDelta.__init__")
+V("twin: Kronecker general case cached under the same key", "C05", BASE, "            array = np.fromfunction(f, tuple(2 * p * [n]), dtype=int)\n", "            array = np.fromfunction(f, tuple(2 * p * [n]), dtype=int)\n            self._cache[(p, n)] = array\n", "silent")
+V("NotReducible raised only when no member is reducible", "C14", CURVE, "if self.dim > 2 and not np.all(is_multiple(", "if self.dim > 2 and not np.any(is_multiple(", "E7.q", "QuadricTensor.components")
+V("NotConcurrent raised only when no quadruple is concurrent", "C11", OPS, "        if not np.all(is_concurrent(a, b, c, d)):", "        if not np.any(is_concurrent(a, b, c, d)):", "E7.q", "crossratio")
+V("normalisation fast path with any()", "C04", POINT, "        if np.all(isinf | (z == 1)):\n            return array", "        if np.any(isinf | (z == 1)):\n            return array", "E6.K6", "_normalize_array")
